@@ -4,7 +4,7 @@ introspection in the format of the Lean driver m_c18.
 
     h_pygen.py <dir> <module>      runtime from $VERIF_REPO/src/exp2python/python (default /repo)
 
-stdout, one line:   ok | pkg=… | class NAME bases=… ctor=… | … | type NAME=… | …     (classes then types, each sorted by name)
+stdout, one line:   ok | pkg=… | wiring=ok|bad:… | class NAME bases=… ctor=… | … | type NAME=… | …     (classes then types, each sorted by name)
 or                  compile-error <message>   /   import-error <ExceptionClass>: <message>
 """
 import enum, importlib, inspect, os, py_compile, re, sys
@@ -56,7 +56,7 @@ def main():
                 ps = [p for p in inspect.signature(obj.__init__).parameters][1:]
                 ctor = ",".join(ps) or "-"
             else:
-                ctor = "none"
+                ctor = "!"
             classes.append((name, "bases=%s ctor=%s" % (",".join(bases) or "-", ctor)))
         elif inspect.isclass(obj) and getattr(obj, "__module__", None) == mod:
             if obj.__name__ != name:
@@ -70,7 +70,29 @@ def main():
         elif isinstance(obj, (A.ARRAY, A.LIST, A.BAG, A.SET)):
             hi = obj.bound_2()
             types.append((name, "aggregate:%s,%s,%s,%s" % (type(obj).__name__, obj.bound_1(), "?" if hi is None else hi, obj._typedef)))
-    items = ["ok", "pkg=" + pkg] + ["class %s %s" % c for c in sorted(classes)] + ["type %s=%s" % t for t in sorted(types)]
+    # constructor wiring: every parameter must reach the attribute it stands for, through the superclass __init__ calls
+    wiring = "ok"
+    for name, obj in vars(M).items():
+        if not (inspect.isclass(obj) and getattr(obj, "__module__", None) == mod and issubclass(obj, BaseEntityClass)
+                and obj.__name__ == name and "__init__" in vars(obj)):
+            continue
+        ps = [p for p in inspect.signature(obj.__init__).parameters][1:]
+        vals = [object() for _ in ps]
+        try:
+            inst = obj(*vals)
+        except Exception as e:
+            wiring = "bad:%s:constructor-raises-%s" % (name, type(e).__name__); break
+        for p_, v in zip(ps, vals):
+            an = re.sub(r"^inherited\d+__", "", p_)
+            try:
+                got = getattr(inst, an)
+            except Exception as e:
+                got = e
+            if got is not v:
+                wiring = "bad:%s.%s" % (name, an); break
+        if wiring != "ok":
+            break
+    items = ["ok", "pkg=" + pkg, "wiring=" + wiring] + ["class %s %s" % c for c in sorted(classes)] + ["type %s=%s" % t for t in sorted(types)]
     print(" | ".join(items))
 
 
